@@ -32,7 +32,7 @@ ASSUMPTIONS = [
     "a watchdog expiry is inconclusive, not a refusal",
 ]
 TIMEOUT = {"quick": 15, "thorough": 120}
-DEADLINE = {"quick": 80, "thorough": 1500}
+DEADLINE = {"quick": 80, "thorough": 1000}
 MIN_DECIDING = {"quick": 40, "thorough": 300}
 NCASES = {"quick": 130, "thorough": 3000}
 
